@@ -94,6 +94,9 @@ def gen(rng, i, tier):
         a = [rng.randrange(-2000, 2000), rng.randrange(1, 1000)]
         bk = rng.choice(["beat", "int", "frac"])
         b = [rng.randrange(-2000, 2000) or 1, 1 if bk == "int" else rng.randrange(1, 1000)]
+        if rng.random() < 0.4:                           # small operands of either sign: measures, halves, thirds
+            b = [rng.choice([-8, -4, -3, -2, -1, 1, 2, 3, 4, 8]), 1 if bk == "int" else rng.choice([1, 2, 3, 4])]
+            a = [rng.randrange(-400, 400), rng.choice([1, 2, 3, 4, 48])]
         return {"k": "ops", "op": op, "a": a, "b": b, "bk": bk}
     if k == "str":
         t = rng.choice([rng.randrange(-96000, 96000), rng.randrange(-480000000, 480000000)])
